@@ -53,11 +53,20 @@ pub struct StrictOpts {
     /// a 0xFFFF / 0xFFFFFFFF field in the end record without ZIP64 records is an error (APPNOTE reads the
     /// value as a marker only "if an archive is in ZIP64 format"; switch off to take it literally)
     pub sentinel_requires_zip64: bool,
+    /// `bytes` is a WINDOW of a larger file that starts at this absolute position of it (sparse sinks beyond
+    /// 4 GiB): a recorded offset `o` is looked up at `prefix + o - window_base`; an offset in front of the
+    /// window is outside the file.  0 = `bytes` is the whole file.
+    pub window_base: u64,
+}
+
+impl StrictOpts {
+    /// position inside `bytes` of the recorded offset `off`
+    pub fn pos(&self, off: u64) -> Option<u64> { self.prefix.checked_add(off)?.checked_sub(self.window_base) }
 }
 
 impl Default for StrictOpts {
     fn default() -> Self {
-        StrictOpts { prefix: 0, allow_trailing: false, utf8_contract: true, utf8_from: 0, decode: true, skip_data: vec![], sentinel_requires_zip64: true }
+        StrictOpts { prefix: 0, allow_trailing: false, utf8_contract: true, utf8_from: 0, decode: true, skip_data: vec![], sentinel_requires_zip64: true, window_base: 0 }
     }
 }
 
@@ -270,7 +279,7 @@ fn locate_end(b: &[u8], opts: &StrictOpts, errors: &mut Vec<String>, warnings: &
     if l_disk != 0 || l_disks != 1 {
         errors.push(format!("ZIP64 locator: disk of the ZIP64 end record {l_disk}, total disks {l_disks}; a single-file archive has 0 and 1"));
     }
-    let zp = match opts.prefix.checked_add(l_off) {
+    let zp = match opts.pos(l_off) {
         Some(z) if z.checked_add(56).map(|e| e <= lp as u64).unwrap_or(false) => z as usize,
         _ => {
             errors.push(format!("ZIP64 locator: offset {l_off} (+ prefix {}) leaves no room for a ZIP64 end record before the locator at {lp}", opts.prefix));
@@ -341,7 +350,7 @@ pub fn strict_parse(bytes: &[u8], opts: &StrictOpts) -> StrictReport {
     }
     let tail_start = info.zip64.map(|z| z.0).unwrap_or(info.end_pos) as u64;
     // ---- central directory
-    let cd_start = match opts.prefix.checked_add(info.cd_off) {
+    let cd_start = match opts.pos(info.cd_off) {
         Some(s) if s <= tail_start => s,
         _ => {
             errors.push(format!("central directory offset {} (+ prefix {}) lies beyond the end records at {tail_start}", info.cd_off, opts.prefix));
@@ -439,13 +448,13 @@ pub fn strict_parse(bytes: &[u8], opts: &StrictOpts) -> StrictReport {
     }
     // ---- local headers
     // starts of everything a data descriptor could run into
-    let mut starts: Vec<u64> = view.entries.iter().filter_map(|e| opts.prefix.checked_add(e.header_offset)).collect();
+    let mut starts: Vec<u64> = view.entries.iter().filter_map(|e| opts.pos(e.header_offset)).collect();
     starts.push(cd_start);
     starts.sort_unstable();
     let n_entries = view.entries.len();
     for i in 0..n_entries {
         let e = &mut view.entries[i];
-        let lp = match opts.prefix.checked_add(e.header_offset) {
+        let lp = match opts.pos(e.header_offset) {
             Some(x) if x.checked_add(30).map(|y| y <= len).unwrap_or(false) => x as usize,
             _ => {
                 errors.push(format!("entry {i}: local header offset {} (+ prefix {}) lies outside the file of {len} bytes", e.header_offset, opts.prefix));
